@@ -637,4 +637,35 @@ def encMatAscii (d : Nat) (lay : Layout) (m : Mat) : List Char :=
 def encFileAscii (d : Nat) (ms : List (Layout × Mat)) : List Char :=
   ms.flatMap fun p => encMatAscii d p.1 p.2
 
+/-! ## 8. from bytes to matrices: `op4.load(file, into='list', sparse=False)` on a binary file -/
+
+/-- one matrix as `listload` returns it: checked name, shape, form, type, the dense columns -/
+structure RMat where
+  name : List Nat
+  rows : Nat
+  cols : Nat
+  form : Int
+  mtype : Int
+  data : List (List Entry)
+deriving Repr, DecidableEq
+
+/-- names through `_check_name` (the counter is the position in the file), puts through `applyPuts` -/
+def toRMats : Nat → List Dec → Option (List RMat)
+  | _, [] => some []
+  | i, d :: t =>
+    match applyPuts d.rows.natAbs d.cols.toNat d.puts, toRMats (i + 1) t with
+    | some X, some r =>
+      some ({ name := checkName i d.rawName, rows := d.rows.natAbs, cols := d.cols.toNat, form := d.form,
+              mtype := d.mtype, data := X } :: r)
+    | _, _ => none
+
+/-- format detection, words from bytes, the reader, the dense matrices -/
+def decodeBytes (bytes : List Nat) : Option (List RMat) :=
+  match decodeFormat bytes with
+  | none => none
+  | some e =>
+    match rdFile e ((wordsOfBytes e bytes).length + 1) (wordsOfBytes e bytes) with
+    | none => none
+    | some ds => toRMats 0 ds
+
 end PyYetiVerif.Op4
